@@ -557,7 +557,13 @@ def simulate(rng, tmp, p):
     for g, reads in groups.items():
         path = os.path.join(tmp, "reads_%s.bam" % g)
         order = sorted(reads, key=lambda r: (sim.chroms.index(r["chrom"]), r["start"]))
-        with pysam.AlignmentFile(path, "wb", header=header) as out:
+        hdr = header
+        reuse = bool(p.get("rg_id_reuse") and p.get("per_sample_bam", False))
+        if reuse:
+            # every per-sample file names its only read group "1" (what independent mapping runs produce)
+            hdr = dict(header)
+            hdr["RG"] = [{"ID": "1", "SM": g.split("_run")[0]}]
+        with pysam.AlignmentFile(path, "wb", header=hdr) as out:
             for r in order:
                 a = pysam.AlignedSegment(out.header)
                 a.query_name = rename.get(r["name"], r["name"])
@@ -580,7 +586,7 @@ def simulate(rng, tmp, p):
                     a.next_reference_id = a.reference_id
                     a.next_reference_start = mate["start"]
                 a.flag = flag
-                a.set_tag("RG", "rg_" + r["sample"])
+                a.set_tag("RG", "1" if reuse else "rg_" + r["sample"])
                 if r.get("bx"):
                     a.set_tag("BX", r["bx"] + "-" + r["sample"][-1])
                 out.write(a)
